@@ -46,7 +46,12 @@ LEVEL_NOTE = ("all C12 theorems are fully proved (no _partial): C12_iterate_eq_s
               "with a >= b or step <= 0 are outside the claim (still compared with the model on a sample); the share "
               "function of total_events_thrown (float formula int((k+1)/n*T)) is a parameter of the count theorems and is "
               "evaluated in IEEE doubles by the driver; a zero-event file inside a FileGenerator file list crashes the "
-              "generator (known finding K6) and is excluded from the claim")
+              "generator (known finding K6) and is excluded from the claim.  Hypothesis audit: slice_range >= 1 is a hypothesis "
+              "of every access-path theorem; at slice_range = 0 code and model raise ValueError before the first event "
+              "(theorem + probe); for slice_range < 0 the model is NOT faithful (Python's negative slice end) - the probe "
+              "checks on the real code that whatever is yielded is a correct prefix and that the pass ends with ValueError "
+              "or completely; the count-setter theorem assumes the custom count is at least what the files account for "
+              "(naturals in the model; the search also sets a count of 0)")
 TECHNIQUE = "Lean 4 model of EventIterator / __getitem__ / append / FileGenerator + exhaustive differential run on real files"
 EXTRACTORS = ["h5_steps"]
 ASSUMPTIONS = [
@@ -370,6 +375,31 @@ def gen_fg_specs(rng, deep=False):
     return specs
 
 
+def gen_late_table(rng):
+    """first session: only untriggered events under require_trigger (gated tables do not exist yet, not even
+    as index columns); the file is read; a second session in the same process adds triggered events, so the
+    ray / noise / waveform tables and their index columns appear only then"""
+    w = "11" + rng.choice("01") + "".join(rng.choice(["1", "1", "0"]) for _ in range(3))
+    if w[3:] == "000":
+        w = w[:5] + "1"
+    base = H.gen_spec(rng, always=True, w=w, n_ok=0, nfaults=0, p_reopen=0.0)
+    base["rt"], base["rt_str"], base["rt_tuple"] = rng.choice(["T", "L001111", "L000111"]), False, False
+    first = [H.gen_add(rng, base["nant"]) for _ in range(rng.randint(1, 3))]
+    for o in first:
+        o["trig"] = 0
+    second = [H.gen_add(rng, base["nant"]) for _ in range(rng.randint(1, 3))]
+    for o in second:
+        o["trig"] = 1
+        if max(o["waves"]) == 0:
+            o["waves"][0] = rng.randint(1, 3)
+        if max(o["rays"]) == 0:
+            o["rays"][0] = rng.randint(1, 3)
+    base["ops"] = first + second
+    split = dict(base)
+    split["ops"] = first + [{"op": "R", "mode": rng.choice(["a", "r+"])}] + second
+    return {"kind": "split", "base": base, "variants": [split], "late_table": True}
+
+
 def gen_split(rng):
     base = H.gen_spec(rng, always=True, n_ok=rng.randint(1, 7), nfaults=rng.choice([0, 0, 1, 2]), p_reopen=0.0)
     return {"kind": "split", "base": base,
@@ -406,6 +436,8 @@ def correspondence(run):
                          "seed": run.rng.getrandbits(32), "nslices": run.scale(40, 150)})
     for _ in range(run.scale(12, 120)):
         jobs.append(gen_split(run.rng))
+    for _ in range(run.scale(3, 30)):
+        jobs.append(gen_late_table(run.rng))
     for _ in range(run.scale(10, 100)):
         sp = gen_fg_specs(run.rng)
         jobs.append({"kind": "fg", "specs": sp, "srs": [1, 2, 3, 100], "layout": gen_fg_layout(run.rng, len(sp))})
@@ -443,6 +475,10 @@ def oracle_access(spec, n, seed, nslices, d):
         why = reader_level_waveforms(r, seq)
         if why:
             return ("HDF5Reader.get_waveforms(event_id=...) differs from the event's own waveforms", why, None)
+    for sr in ([None, 1, 2, 3] if n <= 6 else [None, 2]):
+        bad = H.oracle_passes(b.fn, seq, sr)
+        if bad:
+            return bad
     for sr in range(1, n + 2):
         with H.Reader(b.fn, sr) as r:
             err, evs = r.iterate()
@@ -617,7 +653,7 @@ def fg_count_setter(files, sr, counts):
     try:
         for _ in range(j):
             g.create_event()
-        c0 = 1000 + counts[j - 1]
+        c0 = (1000 + counts[j - 1]) if sr != 2 else 0      # also a custom count BELOW what the files account for
         g.count = c0
         if g.count != c0:
             return "count reads %r right after being set to %r" % (g.count, c0)
@@ -761,10 +797,51 @@ def search(run, deep):
     for _ in range(120 if deep else 6):
         j = gen_split(run.rng)
         jobs.append(j)
+    for _ in range(40 if deep else 4):
+        jobs.append(gen_late_table(run.rng))
     for _ in range(100 if deep else 8):
         sp = gen_fg_specs(run.rng)
         jobs.append({"kind": "fg", "specs": sp, "srs": [1, 2, 3, 100], "layout": gen_fg_layout(run.rng, len(sp))})
     H.run_jobs(run, _search_job, jobs)
+
+
+def degenerate_probes(spec, d):
+    """excluded points of the C12 theorems on the real code, against what the MODEL says there:
+    slice_range = 0 -> ValueError before any event (theorem C12_slice_range_zero_raises); slice_range < 0 ->
+    whatever is yielded is a correct prefix and the pass ends with ValueError or normally (model not
+    faithful there); FileGenerator([]) -> StopIteration, FileGenerator(slice_range=0) -> IndexError in the
+    constructor (theorem C12_filegen_degenerate)"""
+    from pyrex.generation import FileGenerator
+    bad = []
+    fn = os.path.join(d, "deg.h5")
+    b = H.write_file(spec, fn)
+    exp = b.expected_stream()
+    n = len(exp)
+    for sr in (0, -1, -2, -n - 1):
+        for label, a, bb, c in (("iter", None, None, None), ("slice", 0, n, 1), ("slice", 1, None, 2)):
+            with H.Reader(fn, sr) as r:
+                err, evs = r.iterate() if label == "iter" else r.slice(a, bb, c)
+            want = exp if label == "iter" else exp[a:bb:c]
+            if H.diff_events(want[:len(evs)], evs):
+                bad.append(("%s with slice_range=%d yields wrong events" % (label, sr), H.diff_events(want[:len(evs)], evs), "a prefix"))
+            elif sr == 0 and (err != "value" or evs) and want:
+                bad.append(("%s with slice_range=0" % label, (err, len(evs)), "ValueError before the first event"))
+            elif err not in ("value", "stop") or (err == "stop" and len(evs) != len(want)):
+                bad.append(("%s with slice_range=%d ends with" % (label, sr), (err, len(evs)), "ValueError or the complete stream"))
+    for files, sr, want in (([], 2, StopIteration), ([fn], 0, IndexError)):
+        try:
+            FileGenerator(list(files), slice_range=sr)
+            bad.append(("FileGenerator(%d files, slice_range=%d)" % (len(files), sr), "no exception", want.__name__))
+        except want:
+            pass
+        except Exception as e:      # noqa: BLE001
+            bad.append(("FileGenerator(%d files, slice_range=%d)" % (len(files), sr), H._tail(e), want.__name__))
+    replies = fw.run_driver("C12", ["fg 0 1 " + H.file_line(spec), "fg 2 0", "iter %s 0" % H.file_line(spec)])
+    for rp, want in zip(replies, ("init-index", "init-stop", "value")):
+        if rp.split(" | ")[0].strip() != want:
+            bad.append(("model on the degenerate request", rp, want))
+    os.remove(fn)
+    return bad
 
 
 F20_CELLS = [(0, 5), (3, 1), (1, 2), (4, 1), (0, 1)]
@@ -776,6 +853,11 @@ def corpus(run):
     spec = H.gen_spec(random.Random(20), always=True, n_ok=5, nfaults=0, p_reopen=0.0, w="110000")
     with H.tempdir() as d:
         res = oracle_lookup(spec, 5, F20_CELLS, 6, 20, 400, d)
+        for what, obs, exp in degenerate_probes(spec, d):
+            run.fail_input("degenerate", {"kind": "degenerate", "spec": spec, "desc": what}, observed=obs, expected=exp,
+                           what="degenerate input: " + what)
+            res = res or ("degenerate", obs, exp)
+    run.case(("corpus", "degenerate"))
     run.case(("corpus", "F20_block_end"))
     run.count("corpus_cases")
     if res:
